@@ -29,7 +29,11 @@ pub struct Cfg {
     reqs: Vec<(u64, Vec<(Lat, bool)>)>,
     /// (request index, from, until): the caller is not polled in this window (late polls)
     stall: Option<(usize, u64, u64)>,
+    /// one-slot backend: a hedge clone polled while another attempt is in flight fails readiness
+    busy_fails: bool,
 }
+
+const NEVER: u64 = u64::MAX;
 
 fn delay_for(cfg: &Cfg, attempt: usize) -> u64 {
     match &cfg.delay {
@@ -46,15 +50,24 @@ pub fn gen(rng: &mut Prng) -> Cfg {
         0 => Delay::Default,
         1..=4 => Delay::Fixed(*rng.pick(&[0u64, 10_000, 50_000])),
         5..=6 => Delay::NoDelay,
-        _ => Delay::Table((0..5).map(|_| *rng.pick(&[0u64, 5000, 10_000, 20_000])).collect()),
+        _ => {
+            let mut t: Vec<u64> = (0..5).map(|_| *rng.pick(&[0u64, 5000, 10_000, 20_000])).collect();
+            if rng.chance(0.15) {
+                // "effectively never" for one of the later hedges
+                let k = rng.range(1, 4) as usize;
+                t[k] = NEVER;
+            }
+            Delay::Table(t)
+        }
     };
     let d = match &delay {
         Delay::Default => 1_000_000,
         Delay::Fixed(d) if *d > 0 => *d,
-        Delay::Table(t) => t[1].max(5000),
+        Delay::Table(t) => if t[1] == NEVER { 10_000 } else { t[1].max(5000) },
         _ => 10_000,
     };
-    let n = rng.range(1, 3);
+    let busy_fails = rng.chance(0.08);
+    let n = if busy_fails { 1 } else { rng.range(1, 3) };
     let fail_bias = *rng.pick(&[0.3, 0.6, 0.9]);
     let mut reqs = vec![];
     for _ in 0..n {
@@ -84,7 +97,7 @@ pub fn gen(rng: &mut Prng) -> Cfg {
     } else {
         None
     };
-    Cfg { max, delay, reqs, stall }
+    Cfg { max, delay, reqs, stall, busy_fails }
 }
 
 fn map_err(e: &HedgeError<PErr>) -> Outcome {
@@ -104,10 +117,14 @@ pub fn run(cfg: &Cfg, seed: u64) -> (Arc<World>, crate::sim::SimStats) {
             Delay::NoDelay => b.no_delay(),
             Delay::Table(t) => {
                 let t = t.clone();
-                b.delay_fn(move |a| Duration::from_micros(t[a.min(t.len() - 1)]))
+                b.delay_fn(move |a| {
+                    let d = t[a.min(t.len() - 1)];
+                    if d == NEVER { Duration::MAX } else { Duration::from_micros(d) }
+                })
             }
         };
-        let svc = b.build().layer(w.probe(1));
+        let probe = if cfg.busy_fails { w.probe(1).with_ready(crate::world::ReadyScript::FailWhileBusy(5)) } else { w.probe(1) };
+        let svc = b.build().layer(probe);
         let mut end = 0u64;
         for (i, (arrive, script)) in cfg.reqs.iter().enumerate() {
             let steps: Vec<Step> = script.iter().map(|(l, ok)| Step { lat: *l, out: if *ok { Out::Ok } else { Out::Err(1) } }).collect();
@@ -123,6 +140,9 @@ pub fn run(cfg: &Cfg, seed: u64) -> (Arc<World>, crate::sim::SimStats) {
             }
             let mut t = *arrive;
             for (k, (l, _)) in script.iter().enumerate() {
+                if delay_for(cfg, k) == NEVER {
+                    break;
+                }
                 t += delay_for(cfg, k);
                 if let Lat::Us(n) = l {
                     end = end.max(t + n);
@@ -196,6 +216,9 @@ pub fn judge(cfg: &Cfg, log: &[Rec]) -> Report {
                 first_poll.insert(*req, r.t);
             }
             Ev::InnerEnter { req, serial, .. } => atts.entry(*req).or_default().push(A { start: r.t, serial: *serial, end: None }),
+            // one-slot backend: a clone that cannot become ready is an attempt that was started and
+            // failed at that instant (single request per scenario in this mode)
+            Ev::InnerReady { res: 2, .. } if cfg.busy_fails => atts.entry(1).or_default().push(A { start: r.t, serial: u64::MAX, end: Some((r.t, How::Err(5))) }),
             Ev::InnerExit { req, serial, how, .. } => {
                 if let Some(a) = atts.get_mut(req).and_then(|v| v.iter_mut().find(|a| a.serial == *serial)) {
                     a.end = Some((r.t, how.clone()));
@@ -228,7 +251,7 @@ pub fn judge(cfg: &Cfg, log: &[Rec]) -> Report {
         }
         for k in 1..v.len() {
             let d = delay_for(cfg, k);
-            let earliest = if matches!(cfg.delay, Delay::NoDelay) { fp } else { v[k - 1].start + d };
+            let earliest = if matches!(cfg.delay, Delay::NoDelay) { fp } else { v[k - 1].start.saturating_add(d) };
             if v[k].start < earliest {
                 rep.violate(
                     format!("C12:{mode}:hedge-started-too-early"),
@@ -280,7 +303,7 @@ pub fn judge(cfg: &Cfg, log: &[Rec]) -> Report {
                     );
                 }
                 if let Some((s, _)) = inner {
-                    if !v.iter().any(|a| a.serial == *s) {
+                    if !cfg.busy_fails && !v.iter().any(|a| a.serial == *s) {
                         rep.violate(format!("C12:{mode}:foreign-error"), format!("r{id}: AllAttemptsFailed carries error #{s} which is none of its attempts"));
                     }
                 }
@@ -293,7 +316,7 @@ pub fn judge(cfg: &Cfg, log: &[Rec]) -> Report {
             other => rep.violate(format!("C12:{mode}:unexpected-outcome"), format!("r{id}: resolved with {}", other.short())),
         }
     }
-    rep.bucket(format!("{mode} max={}", cfg.max));
+    rep.bucket(format!("{mode} max={}{}", cfg.max, if cfg.busy_fails { " one-slot-backend" } else { "" }));
     rep.nontrivial = multi && any_fail;
     rep
 }
